@@ -919,7 +919,9 @@ def analyse_construct(prog, F, W, fn):
                 # structure): whether that state implies "within the bound" is a graph-theoretic fact, not a property of the text
                 stateful = [a_ for a_ in culprit if witness.get(a_) and any(
                     x_.k == 'DeclRefExpr' and x_.decl_id is not None and prog.vars[x_.decl_id].get('kind') == 'local' and
-                    any(dn_.k != 'VarDecl' and loop.is_ancestor_of(dn_) for (dn_, _r) in ex.assignments_to(fn, x_.decl_id))
+                    any(dn_.k != 'VarDecl' and loop.is_ancestor_of(dn_) for (dn_, _r) in ex.assignments_to(fn, x_.decl_id)) and
+                    # carried across iterations: declared outside the scan loop (a per-edge pre-test declared inside the body is judged as before)
+                    any(dn_.k == 'VarDecl' and not loop.is_ancestor_of(dn_) for (dn_, _r) in ex.assignments_to(fn, x_.decl_id))
                     for x_ in [fn.nodes[a_[1]].strip_all()] + list(fn.nodes[a_[1]].walk()))]
                 if stateful:
                     F.add('R15b', dp, fn, whatdrop, 'undecided', 'the drop is also reached without a positive hop test when `%s` holds, a flag the scan itself maintains: whether it implies '
